@@ -58,8 +58,8 @@ theorem mkAnd_qbits (w x : QRec) :
     mkAnd w x tQuantizedBits =
       { tQuantizedBits with bits := imax x.bits w.bits, signed := x.signed || w.signed,
                             isFloat := x.isFloat || w.isFloat,
-                            intBits := if w.name = .binary ∧ w.use01 then x.intBits else w.intBits } := by
-  by_cases h : w.name = .binary ∧ w.use01 = true <;>
+                            intBits := if w.mode = 4 then x.intBits else w.intBits } := by
+  by_cases h : w.mode = 4 <;>
     simp [mkAnd, h, tQuantizedBits]
 
 /-- AndGate, po2 output template -/
@@ -67,17 +67,18 @@ theorem mkAnd_po2 (w x : QRec) :
     mkAnd w x tPowerOfTwo =
       { tPowerOfTwo with bits := imax x.bits w.bits, signed := x.signed || w.signed,
                          isFloat := x.isFloat || w.isFloat,
-                         intBits := if w.name = .binary ∧ w.use01 then x.intBits else w.intBits,
+                         intBits := if w.mode = 4 then x.intBits else w.intBits,
                          name := if x.signed || w.signed then .quantized_po2 else .quantized_relu_po2,
                          maxValPo2 := if w.name.hasPo2 then w.maxValPo2 else x.maxValPo2 } := by
-  by_cases h : w.name = .binary ∧ w.use01 = true <;>
+  by_cases h : w.mode = 4 <;>
     cases hs : (x.signed || w.signed) <;>
     simp [mkAnd, h, hs, tPowerOfTwo, po2Rename]
 
 /-- Adder (po2 × po2) -/
 theorem mkAdder_po2 (w x : QRec) :
     mkAdder w x tPowerOfTwo =
-      { tPowerOfTwo with bits := imax x.bits w.bits + 1, intBits := imax x.intBits w.intBits + 1,
+      { tPowerOfTwo with bits := imax (x.bits - b2i x.signed) (w.bits - b2i w.signed) + 1 + b2i (x.signed || w.signed),
+                         intBits := imax x.intBits w.intBits + 1,
                          signed := x.signed || w.signed,
                          name := if x.signed || w.signed then .quantized_po2 else .quantized_relu_po2,
                          maxValPo2 := mulMaxVal x.maxValPo2 w.maxValPo2 } := by
